@@ -81,4 +81,13 @@ def ChanOp (f : Chan → Except Err Chan) : Prop :=
     (ch' = ch ∨ ch'.dirty = true) ∧ ch'.allowDup = ch.allowDup ∧ ch'.isStack = ch.isStack ∧
     ch'.dirtyWrite = ch.dirtyWrite ∧ ch'.ignoreDup = ch.ignoreDup
 
+
+/-- The writes of one event: any sequence of successful channel operations
+    (`chan_set` / `chan_push` / `chan_pop`, in any order, any number) on
+    channels satisfying `ok`. -/
+inductive Bay.Writes (ok : Nat → Prop) : Bay → Bay → Prop
+  | nil (b : Bay) : Bay.Writes ok b b
+  | snoc {b b1 b2 : Bay} {c : Nat} {f : Chan → Except Err Chan} :
+      Bay.Writes ok b b1 → ok c → ChanOp f → b1.write c f = .ok b2 → Bay.Writes ok b b2
+
 end Ovni.Emu
